@@ -172,6 +172,7 @@ PROPS = {
         "runs": IMG_CORPUS + [{"cmd": "image-prefix-shrink", "mode": "image", "cases": {"quick": 1, "thorough": 1}, "corpus": True},
                               {"cmd": "image-prefix-tail", "mode": "image", "cases": {"quick": 1, "thorough": 1}, "corpus": True},
                               {"cmd": "image-script", "mode": "image", "args": ["--focus", "script-freelist-reopen"], "cases": {"quick": 1, "thorough": 1}, "corpus": True},
+                              {"cmd": "image-range-sweep", "mode": "image", "cases": {"quick": 1, "thorough": 4}, "shards": {"quick": 4, "thorough": 16}, "per_shard_cases": True},
                               {"cmd": "image-branch-ops", "mode": "image", "cases": {"quick": 8, "thorough": 160}, "shards": {"quick": 8, "thorough": 16}}, dict(IMG_RUN), dict(WAL_RUN), dict(TRIEPOS_RUN), dict(OVERFLOW_RUN), dict(LEAFUPD_RUN)] + BITOPS_RUNS + CRASH_IMAGES,
         "rule": IMG_RULE + CRASH_IMAGES_RULE + WAL_RULE + BITOPS_RULE + UNIT_RULE,
         "trusted_base": IMG_TB, "assumptions": IMG_ASSUME,
@@ -215,6 +216,8 @@ PROPS = {
             {"cmd": "image-prefix-shrink", "mode": "image", "cases": {"quick": 1, "thorough": 1}, "corpus": True},
             {"cmd": "image-prefix-tail", "mode": "image", "cases": {"quick": 1, "thorough": 1}, "corpus": True},
             {"cmd": "image-branch-ops", "cases": {"quick": 48, "thorough": 800}, "shards": {"quick": 8, "thorough": 16}},
+            # range-delete sweep: a fresh bulk-loaded store per length, one commit deleting a run of L keys inside one branch node (4 shards = 4 quarters of the sweep)
+            {"cmd": "image-range-sweep", "cases": {"quick": 1, "thorough": 4}, "shards": {"quick": 4, "thorough": 16}, "per_shard_cases": True},
             dict(OVERFLOW_RUN), dict(LEAFUPD_RUN),
             DB("kv", 160, 1600, nops=16, big=True),
             DB("kv", 6, 60, nops=20, big=True, scale=100, shards_q=6),
@@ -293,7 +296,10 @@ PROPS = {
     },
     "C13": {
         "runs": [{"cmd": "db-matrix", "mode": "api", "args": ["--focus", "general", "--nops", "12", "--variants", "8"], "cases": {"quick": 40, "thorough": 400}, "shards": {"quick": 8, "thorough": 16}},
-                 {"cmd": "db-matrix", "mode": "api", "args": ["--focus", "kv", "--nops", "12", "--variants", "5", "--scale", "60"], "cases": {"quick": 4, "thorough": 40}, "shards": {"quick": 4, "thorough": 16}}, dict(SHARDS_RUN)],
+                 {"cmd": "db-matrix", "mode": "api", "args": ["--focus", "kv", "--nops", "12", "--variants", "5", "--scale", "60"], "cases": {"quick": 4, "thorough": 40}, "shards": {"quick": 4, "thorough": 16}},
+                 # fat values (3 keys per leaf): hundreds of leaves, so that a 1 MiB leaf cache (256 leaves) is full and page numbers are recycled under it
+                 {"cmd": "db-matrix", "mode": "api", "args": ["--focus", "kv", "--nops", "12", "--variants", "5", "--scale", "30", "--fat"], "cases": {"quick": 8, "thorough": 80}, "shards": {"quick": 4, "thorough": 16}},
+                 dict(SHARDS_RUN)],
         "rule": UNIT_RULE.strip() + " cases = generated histories, each executed under 5-8 configurations (commit_concurrency in {1,2,3,4,5,7,8,16,33,64}, warm_up on/off, page cache 1..256 MiB, leaf cache 1..256 MiB, io_workers 1..3, prepopulation, upper levels 0..3, hashtable_buckets in {4096,16384,64000}, different bitbox seeds; the runtime configuration also changes at every reopen); EVERY protocol line (roots, values, proofs byte-for-byte, commit / rollback verdicts, seqn) must be identical across configurations and equal to the configuration-free Lean model. distinct & non-trivial = (history, configuration) pairs beyond the first configuration that completed identically.",
         "trusted_base": API_TB, "assumptions": ["thread interleavings are whatever the runs happen to exhibit (sampled, not enumerated)", "sha2 hasher variant not exercised (engine is instantiated with Blake3)"],
     },
